@@ -159,6 +159,21 @@ pub struct Expect {
     pub why: Vec<&'static str>,
 }
 
+/// Geometry-only part of the reference predicate (no frame needs to be built): true iff the
+/// decimation, divisibility and chroma-size conditions hold.
+pub fn geometry_ok(s: &FSpec) -> bool {
+    let (ssx, ssy) = (s.ss.0 as usize, s.ss.1 as usize);
+    let (w, h) = (s.p[0].w, s.p[0].h);
+    s.p[1].xdec == ssx
+        && s.p[2].xdec == ssx
+        && s.p[1].ydec == ssy
+        && s.p[2].ydec == ssy
+        && w % (1 << ssx) == 0
+        && h % (1 << ssy) == 0
+        && (s.p[1].w, s.p[1].h) == (w >> ssx, h >> ssy)
+        && (s.p[2].w, s.p[2].h) == (w >> ssx, h >> ssy)
+}
+
 /// Reference predicate of C12, transcribed from the property statement.
 pub fn expect<T: Pixel>(s: &FSpec, frame: &Frame<T>) -> Expect {
     let (ssx, ssy) = (s.ss.0 as usize, s.ss.1 as usize);
